@@ -653,6 +653,63 @@ def ob_potential_algebra():
     return proved("sym-exec+normal-form", "%d expressions / rejections" % n)
 
 
+def replay_equal_size_segments():
+    """Native: spaces of the same kind on DIFFERENT parts of one grid with equally many elements (and dofs) are different spaces: sums, products, operator * function,
+    function sums and projections across them must be rejected (ValueError), not evaluated."""
+    import bempp_cl.api as api
+    from bempp_cl.api.operators.boundary import laplace
+
+    warnings.simplefilter("ignore")
+    g = SG.make_grid(*SG.octa())
+    par = Z.params(2, 2)
+    accepted = []
+    for kind, deg in (("DP", 0), ("DP", 1)):
+        a = api.function_space(g, kind, deg, support_elements=[0, 1, 2, 3])
+        b = api.function_space(g, kind, deg, support_elements=[4, 5, 6, 7])
+        if a == b or a.is_compatible(b):
+            accepted.append("%s%d spaces on elements 0-3 and on elements 4-7 compare equal / compatible" % (kind, deg))
+        Va, Vb = laplace.single_layer(a, a, a, parameters=par), laplace.single_layer(b, b, b, parameters=par)
+        fa = api.GridFunction(a, coefficients=np.arange(1.0, a.global_dof_count + 1))
+        fb = api.GridFunction(b, coefficients=np.arange(1.0, b.global_dof_count + 1))
+        for lab, thunk in (("V(A) + V(B)", lambda: (Va + Vb).weak_form()), ("V(A) * V(B)", lambda: (Va * Vb).weak_form()), ("V(A) * f(B)", lambda: Va * fb),
+                           ("f(A) + f(B)", lambda: fa + fb), ("f(A) - f(B)", lambda: fa - fb)):
+            try:
+                thunk()
+            except (ValueError, TypeError, AttributeError):
+                continue
+            accepted.append("%s%d: %s is accepted" % (kind, deg, lab))
+        # projecting a function of A onto test functions living on B gives zero (disjoint supports), not A's own projections
+        try:
+            pr = np.asarray(fa.projections(b))
+            if np.abs(pr).max() > 1e-14:
+                accepted.append("%s%d: f(A).projections(B) is %s instead of zero" % (kind, deg, np.round(pr[:3], 4).tolist()))
+        except (ValueError, TypeError):
+            pass
+    # the same kind of space on two different grids with identical connectivity (a deformed copy): different spaces as well
+    v, e = SG.octa()
+    g2 = SG.make_grid(np.array([[1.3], [0.7], [1.1]]) * v + np.array([[4.0], [0.0], [0.0]]), e)
+    for kind, deg in (("DP", 0), ("P", 1)):
+        a, b = api.function_space(g, kind, deg), api.function_space(g2, kind, deg)
+        if a == b or a.is_compatible(b):
+            accepted.append("%s%d spaces on a grid and on a deformed copy with the same connectivity compare equal / compatible" % (kind, deg))
+        Va, Vb = laplace.single_layer(a, a, a, parameters=par), laplace.single_layer(b, b, b, parameters=par)
+        try:
+            (Va + Vb).weak_form()
+            accepted.append("%s%d: V(grid) + V(deformed copy) is accepted" % (kind, deg))
+        except (ValueError, TypeError, AttributeError):
+            pass
+    return {"violates": bool(accepted), "accepted": accepted}
+
+
+def ob_equal_size_segments():
+    """bounded: see replay_equal_size_segments"""
+    r = replay_equal_size_segments()
+    if r["violates"]:
+        return violated("operands on different parts of the grid with equally many elements are treated as compatible: %s" % r["accepted"][:3], witness={"accepted": r["accepted"]},
+                        signature="reject/equal-size-segments", replay={"callable": "checks.c14:replay_equal_size_segments", "kwargs": {}, "confirmed": True, "result": r})
+    return held("DP0 / DP1 on two disjoint supports of four elements each: all combinations rejected, cross projections zero")
+
+
 def ob_combined_type():
     """table (exhaustive, finite): for all 16 pairs of the four supported dtypes, given as names or numpy dtypes, combined_type is the smallest dtype
     that represents both exactly: complex iff one of them is complex, with the larger of the two real precisions; other names are rejected with ValueError; check_type
@@ -857,6 +914,7 @@ def main():
     run.add("grid-functions.algebra", "post", ob_gridfunction_algebra)
     run.add("blocked-operators.algebra", "post", ob_blocked_algebra)
     run.add("data_types.combined_type::table", "table", ob_combined_type)
+    run.add("rejections.same-kind-spaces-on-different-supports-of-equal-size", "bounded", ob_equal_size_segments)
     run.add("potential-operators.algebra", "post", ob_potential_algebra)
     run.add("potential-operators.algebra::native[octa, Laplace single + double layer, complex density]", "bounded", ob_potential_native)
     run.add("numeric.real-operator-on-complex-vector+sparse-classes", "bounded", ob_numeric_split)
